@@ -478,6 +478,74 @@ func ChildCrash(specPath string) int {
 			}
 		}(cl)
 	}
+	if s.Family == "drops" {
+		gcwg.Add(1)
+		go func() {
+			defer gcwg.Done()
+			r := rand.New(rand.NewSource(s.Seed ^ 77))
+			for {
+				select {
+				case <-stop:
+					return
+				case <-time.After(time.Duration(4+r.Intn(20)) * time.Millisecond):
+				}
+				k := keys[r.Intn(len(keys))]
+				p := k[:1+r.Intn(min(2, len(k)))]
+				sl.line("DS %s", hex.EncodeToString(p))
+				if err := db.DropPrefix(p); err == nil {
+					sl.line("DE %s ok", hex.EncodeToString(p))
+				} else {
+					sl.line("DE %s err %v", hex.EncodeToString(p), err)
+				}
+			}
+		}()
+	}
+	if s.Family == "seq" {
+		for g := 0; g < 3; g++ {
+			gcwg.Add(1)
+			go func(g int) {
+				defer gcwg.Done()
+				r := rand.New(rand.NewSource(s.Seed ^ int64(1000+g)))
+				// GetSequence / Next may fail with ErrConflict when several objects renew the lease at
+				// once: an error hands out nothing, the caller retries
+				get := func() *badger.Sequence {
+					for try := 0; try < 200; try++ {
+						if q, err := db.GetSequence([]byte("s!eq"), uint64(1+r.Intn(5))); err == nil {
+							return q
+						}
+						time.Sleep(200 * time.Microsecond)
+					}
+					return nil
+				}
+				seq := get()
+				if seq == nil {
+					sl.line("seq-unavailable %d", g)
+					return
+				}
+				for {
+					select {
+					case <-stop:
+						_ = seq.Release()
+						return
+					default:
+					}
+					n, err := seq.Next()
+					if err == nil {
+						sl.line("N %d %d", g, n)
+					}
+					if r.Intn(40) == 0 {
+						_ = seq.Release()
+						if seq = get(); seq == nil {
+							return
+						}
+					}
+					if r.Intn(3) == 0 {
+						time.Sleep(time.Duration(r.Intn(300)) * time.Microsecond)
+					}
+				}
+			}(g)
+		}
+	}
 	if s.Family == "gc" {
 		gcwg.Add(1)
 		go func() {
@@ -533,11 +601,15 @@ type sideInfo struct {
 	images           []int64 // image event numbers in log order
 	ackedBeforeImage map[int64]map[string]bool
 	imageClass       map[int64]string
-	fatal            string
+	// line positions (order in the side log) of issue and acknowledgement lines
+	iPos, aPos map[string]int
+	drops      []dropRec
+	seqNums    []crashSeqNum
+	fatal      string
 }
 
 func parseSideLog(path string) *sideInfo {
-	si := &sideInfo{issued: map[string]bool{}, acked: map[string]bool{}, rejected: map[string]string{}, ts: map[string]uint64{}, ackedBeforeImage: map[int64]map[string]bool{}, imageClass: map[int64]string{}}
+	si := &sideInfo{issued: map[string]bool{}, acked: map[string]bool{}, rejected: map[string]string{}, ts: map[string]uint64{}, ackedBeforeImage: map[int64]map[string]bool{}, imageClass: map[int64]string{}, iPos: map[string]int{}, aPos: map[string]int{}}
 	b, err := os.ReadFile(path)
 	if err != nil {
 		return si
@@ -550,12 +622,30 @@ func parseSideLog(path string) *sideInfo {
 	}
 	sc := bufio.NewScanner(bytes.NewReader(b))
 	sc.Buffer(make([]byte, 1<<20), 1<<20)
+	line := 0
 	for sc.Scan() {
 		f := strings.Fields(sc.Text())
+		line++
 		if len(f) == 0 {
 			continue
 		}
 		switch f[0] {
+		case "DS":
+			if len(f) >= 2 {
+				p, _ := hex.DecodeString(f[1])
+				si.drops = append(si.drops, dropRec{prefix: p, start: line})
+			}
+		case "DE":
+			if n := len(si.drops); n > 0 && len(f) >= 3 {
+				si.drops[n-1].end = line
+				si.drops[n-1].ok = f[2] == "ok"
+			}
+		case "N":
+			if len(f) >= 3 {
+				cl, _ := strconv.Atoi(f[1])
+				v, _ := strconv.ParseUint(f[2], 10, 64)
+				si.seqNums = append(si.seqNums, crashSeqNum{cl, v})
+			}
 		case "I", "A", "R", "T":
 			if len(f) < 3 {
 				continue
@@ -564,8 +654,10 @@ func parseSideLog(path string) *sideInfo {
 			switch f[0] {
 			case "I":
 				si.issued[id] = true
+				si.iPos[id] = line
 			case "A":
 				si.acked[id] = true
+				si.aPos[id] = line
 			case "R":
 				si.rejected[id] = strings.Join(f[3:], " ")
 			case "T":
@@ -605,6 +697,18 @@ func parseSideLog(path string) *sideInfo {
 	return si
 }
 
+// dropRec is one DropPrefix call seen in the side log.
+type dropRec struct {
+	prefix     []byte
+	start, end int // line positions; end = 0 when the call never returned (crash inside the drop)
+	ok         bool
+}
+
+type crashSeqNum struct {
+	client int
+	num    uint64
+}
+
 // VerifyDump is what the verifier child prints.
 type VerifyDump struct {
 	OpenErr    string              `json:"open_err,omitempty"`
@@ -613,6 +717,8 @@ type VerifyDump struct {
 	CloseErr   string              `json:"close_err,omitempty"`
 	ReopenErr  string              `json:"reopen_err,omitempty"`
 	MaxVersion uint64              `json:"max_version"`
+	SeqNext    []uint64            `json:"seq_next,omitempty"` // numbers a new Sequence hands out after recovery
+	SeqErr     string              `json:"seq_err,omitempty"`
 }
 
 type dumpItem struct {
@@ -687,6 +793,21 @@ func ChildVerify(specPath string) int {
 	d.MaxVersion = maxStoredVersion(db)
 	checkNewCommitAbove(cc, "ts", db, []byte("m!probe"), "probe", nil)
 	d.Problems = append(d.Problems, cc.Collected()...)
+	if s.Family == "seq" {
+		if seq, err := db.GetSequence([]byte("s!eq"), 3); err != nil {
+			d.SeqErr = err.Error()
+		} else {
+			for i := 0; i < 7; i++ {
+				n, err := seq.Next()
+				if err != nil {
+					d.SeqErr = err.Error()
+					break
+				}
+				d.SeqNext = append(d.SeqNext, n)
+			}
+			_ = seq.Release()
+		}
+	}
 	if err := db.Close(); err != nil {
 		d.CloseErr = err.Error()
 		return out()
@@ -768,7 +889,9 @@ type verifyOpts struct {
 	// whose record lies in the damaged part (by key when the file is plain, by count otherwise).
 	emptyOKKeys map[string]bool
 	maxEmpty    int
-	noBatchAck  bool
+	// out, when set, receives the verifier's dump (C30 reads the sequence numbers from it)
+	out        *VerifyDump
+	noBatchAck bool
 }
 
 func verifyRecoveredOpts(c *core.Ctx, sig string, s *CrashSpec, specPath string, si *sideInfo, acked map[string]bool, wit map[string]any, vo verifyOpts) bool {
@@ -809,6 +932,9 @@ func verifyRecoveredOpts(c *core.Ctx, sig string, s *CrashSpec, specPath string,
 		}
 		c.Violation(sig+"|open-"+kind, "re-opening the database after the crash killed the process ("+kind+")", w(map[string]any{"output": tail}))
 		return true
+	}
+	if vo.out != nil {
+		*vo.out = d
 	}
 	if d.OpenErr != "" {
 		c.Violation(sig+"|open-error|"+errClass(d.OpenErr), "Open after the crash fails: "+d.OpenErr, w(map[string]any{"files": listDir(s.Dir)}))
@@ -925,6 +1051,30 @@ func verifyRecoveredOpts(c *core.Ctx, sig string, s *CrashSpec, specPath string,
 		ts   uint64
 		id   string
 	}
+	// DropPrefix calls of the workload: a key carrying a dropped prefix may legitimately be absent.
+	// dropState(k, writer) = "must-absent" when the writer was acknowledged before a completed drop
+	// covering k was called, "either" when a drop covering k overlaps the writer or never returned,
+	// "" when every drop covering k had returned before the writer was issued (or none covers k).
+	dropState := func(k []byte, writer string) string {
+		st := ""
+		for _, dr := range si.drops {
+			if !bytes.HasPrefix(k, dr.prefix) {
+				continue
+			}
+			ip, ap := si.iPos[writer], si.aPos[writer]
+			switch {
+			case dr.end != 0 && !dr.ok:
+				// refused (ErrBlockedWrites): no effect
+			case dr.end != 0 && ip > dr.end:
+				// writer issued after the drop returned
+			case dr.end != 0 && ap != 0 && ap < dr.start:
+				return "must-absent"
+			default:
+				st = "either"
+			}
+		}
+		return st
+	}
 	want := map[string]exp{}
 	for _, m := range S {
 		for _, o := range crashTxn(s, keys, m.cl, m.sq) {
@@ -954,6 +1104,21 @@ func verifyRecoveredOpts(c *core.Ctx, sig string, s *CrashSpec, specPath string,
 		e, has := want[hk]
 		it, got := d.Items[hk]
 		c.Count("crash.keys_compared", 1)
+		if has && !e.del && len(si.drops) > 0 {
+			switch dropState(k, e.id) {
+			case "must-absent":
+				c.Count("crash.drop_keys_must_be_absent", 1)
+				if got {
+					c.Violation(sig+"|state|dropped-key-visible", fmt.Sprintf("key %s: its newest writer %s was acknowledged before a DropPrefix covering the key was called and returned, but the key is visible (%s, version %d)", hk, e.id, it.Tok, it.Ver), w(map[string]any{"key": hk}))
+				}
+				continue
+			case "either":
+				c.Count("crash.drop_keys_either", 1)
+				if !got {
+					continue // pre-drop value or absent
+				}
+			}
+		}
 		switch {
 		case (!has || e.del) && got:
 			mism++
@@ -1008,7 +1173,9 @@ func verifyRecoveredOpts(c *core.Ctx, sig string, s *CrashSpec, specPath string,
 			if acked[id] && present != len(ops) {
 				c.Violation(sig+"|batch|acked-flush-lost", fmt.Sprintf("WriteBatch %s was flushed successfully before the crash, %d of %d entries are visible", id, present, len(ops)), w(nil))
 			}
-			if gap {
+			if gap && si.rejected[id] == "" {
+				// (a Flush that returned an error - e.g. ErrBlockedWrites during a drop - gives no
+				// ordering guarantee for the internal transactions that were already in flight)
 				c.Violation(sig+"|batch|not-a-prefix", fmt.Sprintf("WriteBatch %s: the visible entries are not a prefix of the entries in call order", id), w(nil))
 			}
 			if acked[id] {
